@@ -3,12 +3,15 @@
 #![allow(non_snake_case)]
 #![allow(clippy::type_complexity)]
 pub mod lab;
+pub mod spec;
 pub mod util;
 pub mod c01;
+pub mod c02;
 pub mod c03;
 pub mod c04;
 pub mod c06;
 pub mod c10;
+pub mod c11;
 
 pub use lab::{Lab, Pol};
 pub use util::{IdSet, Params};
@@ -49,20 +52,24 @@ pub const E1_PROPS: &[&str] = &["C01", "C06"];
 pub fn run_prop<C: RandomizedCiphersuite, L: Lab<C>>(prop: &str, lab: &mut L, p: &Params) {
     match prop {
         "C01" => c01::run::<C, L>(lab, p),
+        "C02" => c02::run::<C, L>(lab, p),
         "C03" => c03::run::<C, L>(lab, p),
         "C04" => c04::run::<C, L>(lab, p),
         "C06" => c06::run::<C, L>(lab, p),
         "C10" => c10::run::<C, L>(lab, p),
+        "C11" => c11::run::<C, L>(lab, p),
         _ => panic!("unknown property {prop}"),
     }
 }
 pub fn cases(prop: &str, thorough: bool, seed: u64) -> Vec<Params> {
     match prop {
         "C01" => c01::cases(thorough, seed),
+        "C02" => c02::cases(thorough, seed),
         "C03" => c03::cases(thorough, seed),
         "C04" => c04::cases(thorough, seed),
         "C06" => c06::cases(thorough, seed),
         "C10" => c10::cases(thorough, seed),
+        "C11" => c11::cases(thorough, seed),
         _ => panic!("unknown property {prop}"),
     }
 }
